@@ -133,7 +133,9 @@ pub(crate) struct GlobalCollect;
 impl GlobalCollect {
     pub fn start_collect(&self) -> usize {
         let collect_id = NEXT_COLLECT_ID.fetch_add(1, Ordering::Relaxed);
-        send_command(CollectCommand::StartCollect(StartCollect { collect_id }));
+        // Like the commit and the cancel of a trace, its start must not be lost when the command
+        // queue is full: without it everything reported for the trace later finds no collector.
+        force_send_command(CollectCommand::StartCollect(StartCollect { collect_id }));
         collect_id
     }
 
